@@ -50,7 +50,7 @@ MontToEdStep ==
   /\ l' = l + 1
 
 \* ================================= Ristretto ========================================
-RisCtor == {"ris.decompress", "ris.from_slice", "ris.basepoint", "ris.identity", "ris.default", "ris.from_uniform_bytes",
+RisCtor == {"rng.ristretto", "ris.table", "ris.decompress", "ris.from_slice", "ris.basepoint", "ris.identity", "ris.default", "ris.from_uniform_bytes",
             "ris.hash_from_bytes", "ris.from_hash"}
 RisPt  == {"ris.add", "ris.sub", "ris.add_assign", "ris.sub_assign", "ris.neg", "ris.copy", "ris.sum", "ris.torsion_translate",
            "ris.cond_select", "ris.mul", "ris.mul_rev", "ris.mul_assign", "ris.mul_base", "ris.vartime_double_scalar_mul_basepoint",
@@ -65,6 +65,8 @@ RisExpected(e) ==
     [] e.op = "ris.basepoint" -> <<TRUE, BasePt>>
     [] e.op \in {"ris.identity", "ris.default"} -> <<TRUE, Identity>>
     [] e.op = "ris.from_uniform_bytes" -> <<TRUE, ToAffine(RistFromUniform(e.in[1]))>>
+    [] e.op = "rng.ristretto" -> <<TRUE, ToAffine(RistFromUniform(SubSeq(e.in[1], 1, 2 * LEN)))>>      \* 64 bytes drawn from the RNG
+    [] e.op = "ris.table" -> <<TRUE, SMul(o.s, RP(e.in[1]))>>
     [] e.op \in {"ris.hash_from_bytes", "ris.from_hash"} -> <<TRUE, ToAffine(RistFromUniform(SHA512(e.in[1])))>>
     [] e.op \in {"ris.add", "ris.add_assign"} -> <<TRUE, PtAdd(RP(e.in[1]), RP(e.in[2]))>>
     [] e.op \in {"ris.sub", "ris.sub_assign"} -> <<TRUE, PtSub(RP(e.in[1]), RP(e.in[2]))>>
@@ -84,7 +86,8 @@ RisPointStep(e) ==
   ELSE LET x == RisExpected(e)  o == e.obs IN
        /\ Note(/\ o.ok = x[1]
                /\ (x[1] => o.r.c = RistEncodeAff(x[2]))
-               /\ (e.op = "ris.from_slice" => o.len_ok = (Len(e.in[1]) = LEN)),
+               /\ (e.op = "ris.from_slice" => o.len_ok = (Len(e.in[1]) = LEN))
+               /\ (e.op = "ris.table" => o.bp.c = RistEncodeAff(RP(e.in[1]))),
                e, IF x[1] THEN RistEncodeAff(x[2]) ELSE "none")
        /\ SetReg(e.out, IF x[1] THEN [t |-> "ris", p |-> x[2]] ELSE NoneVal)
 RisObsJudge(e) ==
@@ -110,7 +113,7 @@ RisStep ==
 \* message, R or S of one entry) must differ, they are non-zero 128-bit values, and a repeated call draws the same ones.
 \* The previous batch's coefficients are remembered in the register "__zs".
 ZsOK(zs) == \A i \in 1..Len(zs) : ~BIsZero(zs[i]) /\ BIsZero(SubSeq(zs[i], (LEN \div 2) + 1, LEN))
-SigOps == {"sig.keygen", "sig.from_keypair_bytes", "sig.sk_from_slice", "sig.sign", "sig.sign_expanded", "sig.sign_prehashed",
+SigOps == {"rng.scalar", "rng.signing_key", "sig.keygen", "sig.from_keypair_bytes", "sig.sk_from_slice", "sig.sign", "sig.sign_expanded", "sig.sign_prehashed",
            "sig.verify", "sig.verify_batch"}
 SigJudge(e) ==
   LET o == e.obs IN
@@ -122,6 +125,9 @@ SigJudge(e) ==
             \* x25519 clamps it); to_scalar is the clamped integer reduced mod l
             /\ o.scalar_bytes = SubSeq(h, 1, LEN) /\ Clamp(o.scalar_bytes) = a /\ o.scalar = ScReduce(a)
             /\ o.mont = ToMontgomery(SMul(a, BasePt)) /\ o.weak = IsSmallOrder(DecompressPt(pk)), pk>>
+  ELSE IF e.op = "rng.scalar" THEN LET x == ScReduce(SubSeq(e.in[1], 1, 2 * LEN)) IN <<o.r = x, x>>
+  ELSE IF e.op = "rng.signing_key" THEN
+       LET sd == SubSeq(e.in[1], 1, LEN)  pk == PublicKey(sd) IN <<o.sk = sd /\ o.pk = pk, pk>>
   ELSE IF e.op = "sig.from_keypair_bytes" THEN
        LET pk == PublicKey(SubSeq(e.in[1], 1, LEN))
            x == (SubSeq(e.in[1], LEN + 1, 2 * LEN) = pk)          \* the public half must be the derived key, byte for byte
